@@ -142,6 +142,43 @@ def section_under_inline_table(d, u):
     return any(len(p) > len(q) and p[:len(q)] == q for q in qs for p in section_paths(u))
 
 
+def split_array_paths(doc):
+    """[[p]] header paths of the document whose occurrences are separated by a section header that is not
+    below p (tomlkit then represents an enclosing table as an OutOfOrderTableProxy holding p twice)."""
+    out = []
+    seq = [(m[0], list(m[1])) for m in doc.model_lines() if m[0] in ("header", "aot")]
+    for i, (k, p) in enumerate(seq):
+        if k != "aot" or p in out:
+            continue
+        between = False
+        for k2, p2 in seq[i + 1:]:
+            if k2 == "aot" and p2 == p:
+                if between:
+                    out.append(p)
+                    break
+            elif p2[:len(p)] != p:
+                between = True
+    return out
+
+
+def user_sets_split_array(d, pu):
+    """Structural condition of the finding C20:overlay:split-array-of-tables: the user's document has a
+    value at the path of a split [[array]] of the defaults."""
+    if pu is None or pu[0] != "T":
+        return False
+    for p in split_array_paths(d):
+        v = pu
+        for k in p:
+            nxt = dict(v[1]).get(k) if v[0] == "T" else None
+            if nxt is None:
+                v = None
+                break
+            v = nxt
+        if v is not None:
+            return True
+    return False
+
+
 class Lab:
     def __init__(self):
         self.keys = {}
@@ -218,9 +255,15 @@ class Impl:
 
     def parse(self, text):
         try:
-            return plain(self.tomlkit.parse(text), self.AoT)
+            doc = self.tomlkit.parse(text)
         except Exception as ex:          # tomlkit raises ParseError / TOMLKitError subclasses
             return ("EXC", type(ex).__name__)
+        try:
+            return plain(doc, self.AoT)
+        except Exception as ex:
+            # tomlkit accepted the text but cannot read its own document back (seen: KeyAlreadyPresent
+            # from OutOfOrderTableProxy for `[[a.t]] / [b.t] / [a.t.t]`): no expected value exists
+            return ("UNREADABLE", type(ex).__name__)
 
     def comment_out(self, text):
         return self.cfg._comment_out_toml(text)
@@ -279,7 +322,7 @@ def gen_cases(ck):
     rng = ck.rng
     for d, u in G.corpus_pairs():
         yield "corpus", d, u
-    n = 1500 if ck.tier == "quick" else 60000
+    n = int(os.environ.get("VERIF_C20_N", "0")) or (1500 if ck.tier == "quick" else 60000)
     for i in range(n):
         r = rng.random()
         if r < 0.30:
@@ -326,7 +369,11 @@ def main(argv=None):
                   "call": f"XDG_CONFIG_HOME=<fresh dir>; load_config_toml('{APP}', default_config)"
                           + ("" if u is None else f" with <dir>/activitywatch/{APP}/{APP}.toml = user_file")}
         pd = impl.parse(d.text)
-        pu = None if u is None else impl.parse(u.text)
+        # the user's file is read in text mode: universal newlines turn "\r\n" into "\n" before tomlkit sees it
+        pu = None if u is None else impl.parse(u.text.replace("\r\n", "\n").replace("\r", "\n"))
+        if pd[0] == "UNREADABLE" or (pu is not None and pu[0] == "UNREADABLE"):
+            ck.count("tomlkit cannot read back a document it parsed (out-of-order sub-table of an array element): skipped")
+            continue
 
         # ---- line level: the code's per-line decision and tomlkit's reading of both texts
         for doc, ptk in ((d, pd), (u, pu)):
@@ -360,7 +407,13 @@ def main(argv=None):
                 ck.count("user-file-rejected-by-tomlkit")
             else:
                 want = overlay_spec(pd, pu)
-                if v1 == ("EXC", "ValueError") and section_under_inline_table(d, u):
+                if (v1[0] == "EXC" or unordered(v1) != unordered(want)) and user_sets_split_array(d, pu):
+                    ck.failing_input("C20:overlay:split-array-of-tables",
+                                     "the defaults define an [[array]] whose elements are separated by another section "
+                                     "(tomlkit keeps the parent as an OutOfOrderTableProxy) and the user's file sets that "
+                                     f"array: sibling default keys are lost or tomlkit raises; got {v1}, expected {want}",
+                                     dict(replay, got=v1, expected=want))
+                elif v1 == ("EXC", "ValueError") and section_under_inline_table(d, u):
                     # tomlkit refuses to put a [table]/[[array]] item into an inline table of the defaults
                     ck.failing_input("C20:overlay:section-into-inline-table",
                                      "load_config_toml raises ValueError: the defaults define an inline table and the "
@@ -396,7 +449,8 @@ def main(argv=None):
 
         # ---- the model
         if pd[0] != "EXC" and pu is not None and pu[0] != "EXC":
-            ask([0, lab.wire(pd), lab.wire(pu)], "merge", (v1, pd, pu, replay, section_under_inline_table(d, u)))
+            ask([0, lab.wire(pd), lab.wire(pu)], "merge", (v1, pd, pu, replay, section_under_inline_table(d, u),
+                                                           user_sets_split_array(d, pu)))
         subset = d.one_line and (u is None or u.one_line)
         ask([2, lab.doc(d), [] if u is None else [lab.doc(u)]], "load",
             (d, u, loads, pd, pu, subset, replay))
@@ -443,9 +497,11 @@ def main(argv=None):
                 ck.disagreement("wire", "driver could not decode a case", {"case": w})
                 continue
             if kind == "merge":
-                v1, pd, pu, replay, inline_hit = payload
+                v1, pd, pu, replay, inline_hit, split_hit = payload
                 iw = None if v1[0] == "EXC" else lab.wire(v1)
-                if v1 == ("EXC", "ValueError") and inline_hit:
+                if split_hit and (iw is None or wire_unordered(iw) != wire_unordered(mo)):
+                    ck.count("impl departs from the model on a split [[array]] the user sets (known finding)")
+                elif v1 == ("EXC", "ValueError") and inline_hit:
                     ck.count("impl raises ValueError (section into inline table): merge not comparable")
                 elif iw is None or wire_unordered(iw) != wire_unordered(mo):
                     ck.disagreement("merge", f"model _merge and load_config_toml differ: model {mo} impl {iw}",
@@ -487,7 +543,12 @@ def main(argv=None):
                 for nth, (vn, tn, an) in enumerate(loads[1:], 2):
                     iw = None if vn[0] == "EXC" else lab.wire(vn)
                     mw = mval[1] if mval[0] == 0 else None
-                    if (iw is None) != (mw is None) or (iw is not None and wire_unordered(iw) != wire_unordered(mw)):
+                    if iw is None and mw is not None and d.header_under_aot:
+                        # the written file repeats a [table] header (one per array element in the defaults);
+                        # tomlkit rejects the repeat, the line model's reading re-opens the table.  Only under
+                        # the condition of the known finding C20:first-run:header-under-array-of-tables.
+                        ck.count("later load raises on a repeated [table] header (known finding); model reading is lenient")
+                    elif (iw is None) != (mw is None) or (iw is not None and wire_unordered(iw) != wire_unordered(mw)):
                         ck.disagreement("load-again", f"load number {nth} after the first-run write: model {mval} impl {iw}",
                                         dict(replay, case=w))
                     if trace_of_model(mtrace) != tn:
@@ -514,6 +575,8 @@ def main(argv=None):
                     iw = None if v1[0] == "EXC" else lab.wire(v1)
                     mw = mval[1] if mval[0] == 0 else None
                     if v1 == ("EXC", "ValueError") and section_under_inline_table(d, u):
+                        pass
+                    elif pu is not None and user_sets_split_array(d, pu):
                         pass
                     elif iw is None or mw is None or wire_unordered(iw) != wire_unordered(mw):
                         ck.disagreement("load", f"load on the line model differs: model {mval} impl {iw}",
